@@ -7,7 +7,7 @@ import (
 
 // Regular expressions for the filter oracle are generated from a small AST and matched by a
 // backtracking matcher over that AST (not by a regex library), so the oracle does not share the
-// implementation's engine. Whole-field, bytewise matching. Data and patterns never contain 0x0a.
+// implementation's engine. Whole-field, bytewise matching; '.' matches every byte except 0x0a, \\C every byte (data contains 0x0a).
 
 const (
 	rxLit     = iota
@@ -185,7 +185,7 @@ func (r *rx) m(s []byte, i int, k func(int) bool, steps *int) bool {
 }
 
 // genRx builds a regex from draws, biased so that it matches one of the target fields often.
-// alphabet: the bytes occurring in the data (never 0x0a).
+// alphabet: the bytes occurring in the data.
 func genRx(d *draws, targets []string, depth int) *rx {
 	lits := func(s string) *rx {
 		c := &rx{kind: rxCat}
